@@ -509,7 +509,7 @@ func execScript(t *testing.T, c *scriptCase) scriptObs {
 	synctest.Test(t, func(t *testing.T) {
 		srv := &server{start: time.Now(), script: c.Script}
 		var authClient *auth.Client
-		if c.Op == "A" || c.Op == "W" || c.Op == "U" || c.PreAuth {
+		if c.Op == "A" || c.Op == "W" || c.Op == "V" || c.Op == "U" || c.Op == "X" || c.PreAuth {
 			authClient = &auth.Client{Cache: auth.NewCache(),
 				Credential: auth.StaticCredential("registry.example", auth.Credential{Username: "u", Password: "p"})}
 		}
@@ -527,6 +527,27 @@ func execScript(t *testing.T, c *scriptCase) scriptObs {
 			srv.script, srv.pos, srv.log, srv.start = c.Script, 0, nil, time.Now()
 		}
 		ctx := context.Background()
+		if c.Op == "V" || c.Op == "X" {
+			// the cache holds a Bearer token under the request's own scope key: the first send of the
+			// request under test already carries it (the normal state within a push session)
+			scope := "repository:r:pull"
+			if c.Op == "X" {
+				scope = "repository:r:pull,push" // what blobStore.Push appends
+			}
+			wctx := auth.WithScopes(context.Background(), scope)
+			authClient.Client = &http.Client{Transport: srv}
+			srv.script = []behaviour{{Kind: "S", Code: 401, Chal: 2, Read: -1}, {Kind: "S", Code: 200, Read: -1}}
+			wreq, _ := http.NewRequestWithContext(wctx, http.MethodGet, "http://registry.example/v2/", nil)
+			wresp, werr := authClient.Do(wreq)
+			if werr != nil || wresp.StatusCode != 200 {
+				panic(fmt.Sprint("warm-up failed: ", werr))
+			}
+			wresp.Body.Close()
+			srv.script, srv.pos, srv.log, srv.start = c.Script, 0, nil, time.Now()
+			if c.Op == "V" {
+				ctx = auth.WithScopes(ctx, scope)
+			}
+		}
 		var cancel context.CancelFunc = func() {}
 		if c.hasCancel() {
 			if c.Deadline {
@@ -556,7 +577,7 @@ func execScript(t *testing.T, c *scriptCase) scriptObs {
 					obs.res = "PANIC"
 				}
 			}()
-			if c.Op == "U" || c.Op == "u" {
+			if c.Op == "U" || c.Op == "u" || c.Op == "X" {
 				// blob push through the Repository: POST (no body), then PUT with the blob
 				repo, err := remote.NewRepository("registry.example/r")
 				if err != nil {
@@ -712,7 +733,7 @@ func scriptCaseRun(t *testing.T, c *scriptCase) {
 	if c.Op != "T" {
 		line += " second=" + showAttempts(sends[1], data) + " third=" + showAttempts(sends[2], data)
 	}
-	upload := c.Op == "U" || c.Op == "u"
+	upload := c.Op == "U" || c.Op == "u" || c.Op == "X"
 	if upload {
 		// sends of a blob push: POST (as sent first / re-sent after a challenge), PUT (same)
 		sends = make([][]attemptRec, 4)
@@ -890,7 +911,7 @@ func scriptCaseRun(t *testing.T, c *scriptCase) {
 		rewindErr := obs.res == "ENOTREWINDABLE" && c.Body[0] == 'O' || obs.res == "EGETBODY" && c.Body[0] == 'G'
 		if !ok && rewindErr && upload {
 			// blob push: the PUT was challenged (it did not inherit credentials from the POST)
-			if c.Op == "U" && last.beh.Kind == "S" && last.beh.Code == 401 && (last.beh.Chal == 1 || last.beh.Chal == 2) &&
+			if (c.Op == "U" || c.Op == "X") && last.beh.Kind == "S" && last.beh.Code == 401 && (last.beh.Chal == 1 || last.beh.Chal == 2) &&
 				len(sends[1]) == 0 && len(sends[2]) > 0 && len(sends[3]) == 0 {
 				ok = true
 			}
@@ -1113,7 +1134,7 @@ func genDuration(r *common.Rand) int64 {
 }
 
 func genScript(r *common.Rand, big bool) *scriptCase {
-	c := &scriptCase{Op: common.Pick(r, []string{"T", "T", "T", "A", "A", "A", "W", "W", "U", "U", "u"}), Cancel: -1}
+	c := &scriptCase{Op: common.Pick(r, []string{"T", "T", "T", "A", "A", "A", "W", "W", "V", "V", "U", "U", "u", "X", "X"}), Cancel: -1}
 	c.MaxRetry = common.Pick(r, []int{0, 1, 2, 3, 3, 5, 5, 8, -1})
 	c.Min = genDuration(r)
 	if c.Min < 0 && r.Chance(3, 4) {
@@ -1192,7 +1213,7 @@ func genScript(r *common.Rand, big bool) *scriptCase {
 			}
 		}
 	}
-	if c.Op == "U" || c.Op == "u" {
+	if c.Op == "U" || c.Op == "u" || c.Op == "X" {
 		// blob push: some answers for the POST, its 202, some answers for the PUT, its 201
 		if c.Body != "R" && c.Body != "O" {
 			c.Body = common.Pick(r, []string{"R", "O"})
@@ -1203,11 +1224,11 @@ func genScript(r *common.Rand, big bool) *scriptCase {
 		c.UnknownLen, c.Method, c.PreAuth, c.Manifest = false, "", false, ""
 		var sc []behaviour
 		for i := r.Intn(3); i > 0; i-- {
-			sc = append(sc, genBehaviour(r, c.Op == "U", true))
+			sc = append(sc, genBehaviour(r, c.Op != "u", true))
 		}
 		sc = append(sc, behaviour{Kind: "S", Code: 202, Read: -1, Lat: int64(r.Intn(20)) * 2})
 		for i := r.Intn(4); i > 0; i-- {
-			sc = append(sc, genBehaviour(r, c.Op == "U", true))
+			sc = append(sc, genBehaviour(r, c.Op != "u", true))
 		}
 		c.Script = append(sc, behaviour{Kind: "S", Code: 201, Read: -1})
 	}
@@ -1350,7 +1371,7 @@ func enumScripts(t *testing.T, maxLen int, allCancel bool) {
 	var rec func(prefix []behaviour)
 	rec = func(prefix []behaviour) {
 		if len(prefix) > 0 {
-			for _, op := range []string{"T", "A", "W"} {
+			for _, op := range []string{"T", "A", "W", "V"} {
 				for _, body := range []string{"N", "B", "R", "O", "G1"} {
 					c := &scriptCase{Op: op, MaxRetry: 2, Min: 100, Max: 1000, Tbl: []int64{50, 5000}, Dflt: 300, Cancel: -1, Body: body,
 						Script: append([]behaviour(nil), prefix...)}
@@ -1361,7 +1382,7 @@ func enumScripts(t *testing.T, maxLen int, allCancel bool) {
 					if !allCancel {
 						scriptCaseRun(t, c)
 						run.Count("enumerated")
-						if op != "W" && (body == "R" || body == "O") && prefix[len(prefix)-1].Code == 201 {
+						if (op == "A" || op == "T") && (body == "R" || body == "O") && prefix[len(prefix)-1].Code == 201 {
 							// the same answers against a manifest push (auth client: buffering rule)
 							m := *c
 							m.UnknownLen, m.Manifest = false, map[string]string{"A": "M", "T": "m"}[op]
@@ -1410,7 +1431,7 @@ func enumUploads(t *testing.T, maxLen int) {
 	var rec func(prefix []behaviour)
 	rec = func(prefix []behaviour) {
 		if len(prefix) > 0 {
-			for _, op := range []string{"U", "u"} {
+			for _, op := range []string{"U", "u", "X"} {
 				for _, body := range []string{"R", "O"} {
 					scriptCaseRun(t, &scriptCase{Op: op, MaxRetry: 2, Min: 100, Max: 1000, Tbl: []int64{50, 5000}, Dflt: 300, Cancel: -1,
 						Body: body, Data: "0102030405", Script: append([]behaviour(nil), prefix...)})
@@ -1697,7 +1718,7 @@ func replayCases(t *testing.T) {
 			continue
 		}
 		switch head.Op {
-		case "T", "A", "W", "U", "u":
+		case "T", "A", "W", "V", "U", "u", "X":
 			var c scriptCase
 			if err := json.Unmarshal(js, &c); err != nil {
 				panic(err)
